@@ -297,8 +297,9 @@ def sibling_rule(ctx, chk):
         elif r[0] == "dropped":
             _, kind, opn, operand, side = r
             who = "word" if side == "b" else "byte"
-            chk.violation("C02.R10", f"{m}.{who[0]}", f"{kind}-drops-operand:{operand}",
-                          f"{who}_{m}: a {kind} expression is the other width's with the operand `{operand}` of a {opn} left out: the two widths of `{m}` behave differently", where)
+            chk.violation("C02.R10", m, f"{kind}-operand-only-in-one-width:{operand}",
+                          f"byte_{m} and word_{m} differ: a {kind} expression of the {who} form lacks the operand `{operand}` of a {opn} that the other width has "
+                          f"(after width normalisation the two helpers must be copies): one of the two is wrong", where)
         elif r[0] == "node":
             _, kind, what, x, y = r
             chk.violation("C02.R10", m, f"{kind}-{what}-differs:{x}/{y}",
